@@ -82,8 +82,11 @@ def main(argv):
                 mp = os.path.join(d, 'meta.json')
                 m = json.load(open(mp))
                 if s == 'seeded':
+                    first = (m.get('detection') or {}).get('first_run_before_any_rule_change')
                     m['detection'] = {'how': 'tools/regress.py: patch applied to a scratch copy of /repo, every claimed check run with --repo <copy>; keys = violation keys added with respect to the unchanged tree',
                                       'new_violation_keys': delta, 'detected': bool(delta), 'detected_by_own_property_check': m.get('breaks_property') in delta, 'only_anchor_lost': anchor_only}
+                    if first is not None:
+                        m['detection']['first_run_before_any_rule_change'] = first
                 else:
                     m['new_violation_keys'] = delta
                     m['silent'] = not delta
